@@ -875,7 +875,7 @@ class Arnoldi:
         linargs = _copy_with_defaults(self.linargs, solver='direct', symmetric=system.is_symmetric)
         approx_jac = self.__cached_matrix
         if approx_jac is not None and approx_jac.shape == jac.shape:
-            dx_space, dres_space = numpy.empty((2, self.maxiter, len(res)))
+            dx_space, dres_space = numpy.empty((2, self.maxiter, len(res)), dtype=res.dtype)
             for i in range(self.maxiter):
                 try:
                     dx_space[i] = approx_dx = approx_jac.solve(res, **linargs)
